@@ -25,7 +25,7 @@ EXPLANATION = (
 NOT_DECIDED = ["that the value found is the minimum over all images for every cell (numerical)", "float32 rounding at half-box distances",
                "find_closest_contact neither reduces the box nor searches images (only matters for skewed cells; numerical)"]
 ASSUMPTIONS = ["round()/roundf() return the nearest integer", "fvec4 operators are element-wise"]
-FLOORS = {"C05-R1": 20, "C05-R2": 8, "C05-R3": 3, "C05-R4": 16, "C05-R5": 44, "C05-R6": 20}
+FLOORS = {"C05-R1": 20, "C05-R2": 2, "C05-R3": 1, "C05-R4": 18, "C05-R5": 44, "C05-R6": 20}
 
 DIST = "mdtraj/geometry/distance.py"
 GEO = "mdtraj/geometry/src/geometry.cpp"
@@ -42,6 +42,7 @@ def check(ctx):
     dispatch(ctx, "C05-R1", [(DIST, "compute_distances_core"), (DIST, "compute_distances_t"), (DIST, "compute_displacements")])
     wrappers(ctx, "C05-R1", ["_dist_mic", "_dist_mic_t", "_dist_mic_displacement"])
     _kernels(ctx)
+    kernels_value(ctx)
     ffi(ctx, "C05-R5", ["_dist", "_dist_displacement", "_dist_mic", "_dist_t", "_dist_mic_t", "_dist_mic_displacement", "_find_closest_contact"])
     ctx.rule("C05-R6", "every geometry function with a `periodic` parameter forwards it to every package callee that has one")
     periodic_plumbing(ctx, "C05-R6", floor=20)
@@ -186,63 +187,8 @@ def _kernel_facts(ctx, cf, fname):
 def _kernels(ctx):
     cf = C.get(ctx.repo)
     ctx.analysed_files.add(GEO)
-    facts = {}
-    for k in ("dist_mic_triclinic", "dist_mic_triclinic_t", "dist_mic", "dist_mic_t"):
-        facts[k] = _kernel_facts(ctx, cf, k)
-    # ---- R2
-    for k, (fn, st) in facts.items():
-        r12 = [s for s in st if s.startswith("r12=")]
-        ok = bool(r12) and r12[0] in ("r12=(pos2-pos1)",)
-        ctx.decide(ok, "C05-R2", C.line(fn), GEO, k, "r12 = pos2 - pos1", "", "displacement is defined as %s" % (r12[0] if r12 else None))
-        wraps = [s for s in st if s.startswith("(r12-=")]
-        ok = bool(wraps) and all("round(" in w and "r12" in w[5:] for w in wraps) and not any(re.search(r"round\([^)]*pos[12]", w) for w in wraps)
-        ctx.decide(ok, "C05-R2", C.line(fn), GEO, k, "round() is applied to components of r12 (%d wraps)" % len(wraps), "", "the wrap does not act on the difference vector: %s" % wraps[:2])
-    # ---- R3 C++ siblings
-    def core(st):
-        return [x for x in st if not re.match(r"^\((xyz|box_matrix)[-+]=", x)]
-    a, b = core(facts["dist_mic_triclinic"][1]), core(facts["dist_mic_triclinic_t"][1])
-    ctx.decide(a == b and len(a) > 10, "C05-R3", C.line(facts["dist_mic_triclinic_t"][0]), GEO, "dist_mic_triclinic_t", "identical to dist_mic_triclinic after the position load (%d statements)" % len(a), "",
-               "the time-pair variant differs from dist_mic_triclinic: %s" % [(x, y) for x, y in zip(a, b) if x != y][:2])
-    a, b = core(facts["dist_mic"][1]), core(facts["dist_mic_t"][1])
-    ctx.decide(a == b and len(a) >= 2, "C05-R3", C.line(facts["dist_mic_t"][0]), GEO, "dist_mic_t", "identical to dist_mic after the position load (%d statements)" % len(a), "",
-               "the time-pair variant differs from dist_mic: %s" % [(x, y) for x, y in zip(a, b) if x != y][:2])
-    # ---- R4 orthorhombic kernels: wrap by the box diagonal and its reciprocal
-    for k in ("dist_mic", "dist_mic_t"):
-        fn, st = facts[k]
-        loads = {n.get("name"): _norm(C.text(C.kids(n)[-1])) for n in C.walk(fn) if n["kind"] == "VarDecl" and n.get("name") in ("box_size", "inv_box_size") and C.kids(n)}
-        ok = loads.get("box_size") == "fvec4(box_matrix[0],box_matrix[4],box_matrix[8],0)" and loads.get("inv_box_size") == "fvec4((1.0/box_matrix[0]),(1.0/box_matrix[4]),(1.0/box_matrix[8]),0)"
-        ctx.decide(ok, "C05-R4", C.line(fn), GEO, k, "box_size = diagonal of the box, inv_box_size its reciprocal", "", "orthorhombic box loads are %s" % loads)
-        wraps = [s for s in st if s.startswith("(r12-=")]
-        ctx.decide(wraps == ["(r12-=(round((r12*inv_box_size))*box_size))"], "C05-R4", C.line(fn), GEO, k, "r12 -= round(r12 / L) * L", "", "orthorhombic wrap is %s" % wraps)
-    # ---- R4 on both triclinic kernels
-    for k in ("dist_mic_triclinic", "dist_mic_triclinic_t"):
-        fn, st = facts[k]
-        red = [_norm(C.text(n)) for n in C.walk(fn) if n["kind"] in ("CXXOperatorCallExpr", "CompoundAssignOperator") and _norm(C.text(n)).startswith(("(box_vec3-=", "(box_vec2-="))]
-        want = ["(box_vec3-=(box_vec2*roundf((box_vec3[1]/box_vec2[1]))))", "(box_vec3-=(box_vec1*roundf((box_vec3[0]/box_vec1[0]))))", "(box_vec2-=(box_vec1*roundf((box_vec2[0]/box_vec1[0]))))"]
-        ctx.decide(red == want, "C05-R4", C.line(fn), GEO, k, "box reduction c-=b, c-=a, b-=a", "", "box reduction statements are %s" % red)
-        loads = {n.get("name"): _norm(C.text(C.kids(n)[-1])) for n in C.walk(fn) if n["kind"] == "VarDecl" and n.get("name", "").startswith("box_vec")}
-        ok = loads.get("box_vec1", "").startswith("fvec4(box_matrix[0],box_matrix[3],box_matrix[6]") and loads.get("box_vec2", "").startswith("fvec4(box_matrix[1],box_matrix[4],box_matrix[7]") and \
-            loads.get("box_vec3", "").startswith("fvec4(box_matrix[2],box_matrix[5],box_matrix[8]")
-        ctx.decide(ok, "C05-R4", C.line(fn), GEO, k, "box vectors are the columns of the transposed matrix", "", "box vector loads are %s" % loads)
-        wraps = [s for s in st if s.startswith("(r12-=")]
-        want = ["(r12-=(box_vec3*round((r12[2]*recip_box_size[2]))))", "(r12-=(box_vec2*round((r12[1]*recip_box_size[1]))))", "(r12-=(box_vec1*round((r12[0]*recip_box_size[0]))))"]
-        ctx.decide(wraps == want, "C05-R4", C.line(fn), GEO, k, "wrap along c, b, a", "", "wrap statements are %s" % wraps)
-        rec = [n for n in C.walk(fn) if n["kind"] == "VarDecl" and n.get("name") == "recip_box_size"]
-        ok = bool(rec) and _norm(C.text(C.kids(rec[0])[-1])) == "{(1.0/box_vec1[0]),(1.0/box_vec2[1]),(1.0/box_vec3[2])}"
-        ctx.decide(ok, "C05-R4", C.line(fn), GEO, k, "reciprocal of the reduced diagonal", "", "recip_box_size is %s" % (C.text(C.kids(rec[0])[-1]) if rec else None))
-        loops = [s for s in st if s.startswith("for ")]
-        ok = loops == ["for x in [-1, 0, 1]", "for y in [-1, 0, 1]", "for z in [-1, 0, 1]"]
-        ctx.decide(ok, "C05-R4", C.line(fn), GEO, k, "image loops enumerate {-1,0,1}^3", "", "image loops are %s (some neighbouring images are never examined)" % loops)
-        cand = [s for s in st if s.startswith(("ra=", "rb=", "rc="))]
-        want = ["ra=(r12+(box_vec1*x))", "rb=(ra+(box_vec2*y))", "rc=(rb+(box_vec3*z))"]
-        ctx.decide(cand == want, "C05-R4", C.line(fn), GEO, k, "candidate = r + x*a + y*b + z*c", "", "candidate images are built as %s" % cand)
-        sel = [s for s in st if s.startswith("if ")]
-        ok = any(s in ("if (dist2<=min_dist2)", "if (dist2<min_dist2)") for s in sel) and "(min_r=rc)" in st and "(min_dist2=dist2)" in st
-        ctx.decide(ok, "C05-R4", C.line(fn), GEO, k, "keeps the candidate of smallest length", "", "selection of the minimum changed: %s" % sel)
-        stores = [_norm(C.text(n)) for n in C.walk(fn) if n["kind"] == "MemberExpr" and _norm(C.text(n)).endswith(".store")]
-        dists = [_norm(C.text(C.kids(n)[1])) for n in C.walk(fn) if n["kind"] == "BinaryOperator" and n.get("opcode") == "=" and _norm(C.text(C.kids(n)[0])) in ("(*distance_out)", "*distance_out")]
-        ctx.decide(stores == ["min_r.store"] and dists == ["sqrtf(min_dist2)"], "C05-R4", C.line(fn), GEO, k, "the searched minimum (min_r, min_dist2) is what is stored", "",
-                   "the values written out are %s / %s, not the result of the image search" % (stores, dists))
+    # The C kernels are decided by value numbering (kernels_value below): the statement-text comparisons that stood here
+    # (r12 definition, wrap statements, box loads and reduction, candidate construction, sibling equality) fired on renamed locals.
     # ---- numpy reference trio
     fns = {q: ctx.py.func(DIST, q) for q in ("_distance_mic", "_distance_mic_t", "_displacement_mic")}
     sig = {}
@@ -343,3 +289,91 @@ def periodic_plumbing(ctx, rule, only=None, floor=0):
     if n < floor:
         raise AnalysisError("periodic plumbing: only %d forwarding sites found (expected >= %d)" % (n, floor))
     return n
+
+
+# ---------------------------------------------------------------------------------------------------
+# value numbering of the four minimum-image kernels (replaces the statement-text comparisons of R2/R3/R4)
+# ---------------------------------------------------------------------------------------------------
+def kernels_value(ctx):
+    from ..symval import SymExec, State, Unsupported
+    from ..poly import Poly, Rat
+    cf = C.get(ctx.repo)
+
+    def S(base, off):
+        """the symbol symval gives to base[off] (off a Rat / int)"""
+        o = off if isinstance(off, Rat) else Rat(Poly.const(off))
+        c = o.const_value()
+        return Rat(Poly.var("%s[%s]" % (base, int(c) if c is not None and c.denominator == 1 else repr(o))))
+    i, j = Rat(Poly.var("i")), Rat(Poly.var("j"))
+    for kern, tri, timed in (("dist_mic", False, False), ("dist_mic_t", False, True), ("dist_mic_triclinic", True, False), ("dist_mic_triclinic_t", True, True)):
+        fn = cf.function(GEO, kern)
+        ex = SymExec(cf, GEO, symbolic_loops={"i", "j", "x", "y", "z"})
+        try:
+            outs = ex.run(C.kids(C.body_of(fn)), State())
+        except Unsupported as e:
+            raise AnalysisError("%s: %s" % (kern, e))
+        full = [o for o in outs if o.env.get(("displacement_out", 0)) is not None and o.env.get(("distance_out", 0)) is not None and not any(p is False and "<" in c for c, p in o.cvals)]
+        if len(full) != 1:
+            raise AnalysisError("%s: expected one path that stores both outputs, found %d" % (kern, len(full)))
+        o = full[0]
+        # ---- the definition, built from the same input symbols
+        a1, a2 = S("pairs", 2 * j), S("pairs", 2 * j + 1)
+        if timed:
+            t1, t2 = S("times", 2 * i), S("times", 2 * i + 1)
+            n = Rat(Poly.var("n_atoms"))
+            p1 = [S("xyz", 3 * n * t1 + 3 * a1 + k) for k in range(3)]
+            p2 = [S("xyz", 3 * n * t2 + 3 * a2 + k) for k in range(3)]
+            boff = 9 * t1
+        else:
+            p1 = [S("xyz", 3 * a1 + k) for k in range(3)]
+            p2 = [S("xyz", 3 * a2 + k) for k in range(3)]
+            boff = Rat(Poly.const(0))
+        M = [S("box_matrix", boff + k) for k in range(9)]
+        r = [p2[k] - p1[k] for k in range(3)]
+
+        def rnd(v):
+            return ex.opaque_call("round", [v])
+        if not tri:
+            Ld = [M[0], M[4], M[8]]
+            w = [r[k] - rnd(r[k] * (Rat(Poly.const(1)) / Ld[k])) * Ld[k] for k in range(3)]
+            cand = w
+        else:
+            b1, b2, b3 = [M[0], M[3], M[6]], [M[1], M[4], M[7]], [M[2], M[5], M[8]]
+            f = rnd(b3[1] / b2[1])
+            b3 = [b3[k] - b2[k] * f for k in range(3)]
+            f = rnd(b3[0] / b1[0])
+            b3 = [b3[k] - b1[k] * f for k in range(3)]
+            f = rnd(b2[0] / b1[0])
+            b2 = [b2[k] - b1[k] * f for k in range(3)]
+            rec = [Rat(Poly.const(1)) / b1[0], Rat(Poly.const(1)) / b2[1], Rat(Poly.const(1)) / b3[2]]
+            w = list(r)
+            for vec, comp in ((b3, 2), (b2, 1), (b1, 0)):
+                f = rnd(w[comp] * rec[comp])
+                w = [w[k] - vec[k] * f for k in range(3)]
+            x, y, z = Rat(Poly.var("x")), Rat(Poly.var("y")), Rat(Poly.var("z"))
+            cand = [w[k] + b1[k] * x + b2[k] * y + b3[k] * z for k in range(3)]
+        got = [o.env.get(("displacement_out", k)) for k in range(3)]
+        okd = all(g is not None and g == c for g, c in zip(got, cand))
+        what = "r = x[b] - x[a]; r -= round(r/L) L" if not tri else "box columns reduced c-=b, c-=a, b-=a; r wrapped along c, b, a by the reciprocal diagonal; candidate r + x a + y b + z c"
+        ctx.decide(okd, "C05-R4", C.line(fn), GEO, kern, "displacement normal form: " + what, "",
+                   "the displacement the kernel stores is not the minimum-image expression of its definition (component 0: %s)" % (repr(got[0])[:200]))
+        dist = o.env.get(("distance_out", 0))
+        d2 = cand[0] * cand[0] + cand[1] * cand[1] + cand[2] * cand[2]
+        want = ex.opaque_call("sqrt", [d2])
+        ctx.decide(dist is not None and dist == want, "C05-R4", C.line(fn), GEO, kern, "distance = |stored displacement|", "", "the distance stored is %s" % (repr(dist)[:160]))
+        if tri:
+            # the image loops: generic iteration over x, y, z in {-1,0,1}; the update keeps the candidate whose squared length is not larger
+            rng = {}
+            for n_ in C.walk(fn):
+                if n_["kind"] == "ForStmt":
+                    nm, vals = _loop_values(n_)
+                    if nm in ("x", "y", "z"):
+                        rng[nm] = vals
+            ctx.decide(rng == {"x": {-1, 0, 1}, "y": {-1, 0, 1}, "z": {-1, 0, 1}}, "C05-R4", C.line(fn), GEO, kern, "image loops enumerate {-1,0,1}^3", "",
+                       "image loops cover %s (some neighbouring images are never examined)" % {k: sorted(v) if v is not None else None for k, v in rng.items()})
+            sel = [c for c, p in o.cvals if p and ("<=" in c or "<" in c) and "sqrt" not in c]
+            okc = False
+            if sel:
+                t = re.sub(r"\s", "", sel[-1])
+                okc = t.startswith("(" + re.sub(r"\s", "", repr(d2))) and re.search(r"<=?\d", t) is not None
+            ctx.decide(okc, "C05-R4", C.line(fn), GEO, kern, "a candidate replaces the current best when its squared length is not larger", "", "selection condition is %s" % (sel[-1][:120] if sel else None))
